@@ -47,7 +47,7 @@ class Msg:
     def __init__(self, method="GET", version="1.1", headers=None, body_len=0, framing="none",
                  chunks=None, chunk_opts=None, expect=None, conn=None, cls="ok", why="C10", raw_head=None,
                  plan=None, target_suffix="", extra_headers=None, cl_name="Content-Length",
-                 te_name="Transfer-Encoding", both=False, upgrade_tail=0):
+                 te_name="Transfer-Encoding", both=False, upgrade_tail=0, te_first=False):
         self.method = method
         self.version = version
         self.headers = headers  # explicit list of (name, value) or None for default
@@ -66,6 +66,7 @@ class Msg:
         self.cl_name = cl_name
         self.te_name = te_name
         self.both = both
+        self.te_first = te_first      # with both framing headers: Transfer-Encoding comes before Content-Length
         self.upgrade_tail = upgrade_tail
 
     def build(self, c, m):
@@ -81,10 +82,15 @@ class Msg:
                 hdrs.append(("Connection", self.conn))
             if self.expect is not None:
                 hdrs.append(("Expect", self.expect))
-            if self.framing == "cl" or (self.framing == "chunked" and self.both):
-                hdrs.append((self.cl_name, str(self.body_len)))
-            if self.framing == "chunked":
+            if self.framing == "chunked" and self.both and self.te_first:
                 hdrs.append((self.te_name, "chunked"))
+                hdrs.append(("X-Between", "1"))
+                hdrs.append((self.cl_name, str(self.body_len)))
+            else:
+                if self.framing == "cl" or (self.framing == "chunked" and self.both):
+                    hdrs.append((self.cl_name, str(self.body_len)))
+                if self.framing == "chunked":
+                    hdrs.append((self.te_name, "chunked"))
         if self.raw_head is not None:
             head = self.raw_head if isinstance(self.raw_head, bytes) else self.raw_head.encode("latin1")
             head = head.replace(b"@URL@", url.encode())
